@@ -182,6 +182,10 @@ def run(ck):
                        "the bootstrap tipset is final: with no certificate two nodes are only compared on the initial power table"]
     import runnerstage          # additional conformance coverage: which instance the node works on, and when (host.go)
     runnerstage.runner_stage(ck)
+    if ck.violations:
+        return
+    import powerstorestage      # the ec.Backend production hands to consensus: tables rebuilt from recorded deltas when EC refuses
+    powerstorestage.powerstore_stage(ck)
 
 
 MANIFEST = dict(
